@@ -135,13 +135,20 @@ Theorem C02_mirror : forall {X} (cmp : X -> X -> comparison) z n w,
 Proof. exact @count_eq_mirror. Qed.
 Print Assumptions C02_mirror.
 
-(* The executable twin the correspondence check runs (whole distribution at once) is the same count *)
+(* The executable twins the correspondence check runs (whole distribution at once; index 2U with ties,
+   index U without) are the same counts *)
 Theorem C02_table_counts_subsets : forall {X} (cmp : X -> X -> comparison) N1 N2 T z w,
   grouped cmp (rev (eff_T N1 N2 T)) z ->
   cum_at (cumsum 0 (mass_table N1 N2 T)) w = count_le cmp z N1 w /\
   coef (mass_table N1 N2 T) w = count_eq cmp z N1 w.
 Proof. exact @table_counts_subsets. Qed.
 Print Assumptions C02_table_counts_subsets.
+Theorem C02_untied_table_counts_subsets : forall {X} (cmp : X -> X -> comparison) N1 N2 z k,
+  grouped cmp (ones (N1 + N2)) z ->
+  coef (untied_table N1 N2) k = count_eq cmp z N1 (2 * k) /\
+  cum_at (cumsum 0 (untied_table N1 N2)) k = count_le cmp z N1 (2 * k).
+Proof. exact @untied_table_counts_subsets. Qed.
+Print Assumptions C02_untied_table_counts_subsets.
 
 (* ---------- non-vacuity ---------- *)
 (* the canonical ranked pool satisfies [grouped] for every tie vector; Nat.compare is antisymmetric *)
@@ -167,5 +174,6 @@ Example C02_untied_example :
   map (fun u => Qred (untied_p 7 3 3 u)) (zrange 0 9) = map (fun u => Qred (inject_Z (untied_c 3 3 u) / 20)) (zrange 0 9) /\
   map (untied_c 3 3) (zrange 0 9) = [1; 1; 2; 3; 3; 3; 3; 2; 1; 1] /\
   map (fun u => count_eq Nat.compare (rank_pool (ones 6)) 3 (2 * u)) (zrange 0 9) = [1; 1; 2; 3; 3; 3; 3; 2; 1; 1] /\
+  untied_table 3 3 = [1; 1; 2; 3; 3; 3; 3; 2; 1; 1] /\
   Qred (udist_cdf 3 3 [] (7 # 2)) = (7 # 20)%Q /\ Qred (udist_cdf 3 3 [] (13 # 2)) = (4 # 5)%Q.
 Proof. vm_compute. repeat split; reflexivity. Qed.
